@@ -141,6 +141,8 @@ def _flatten_dict(facts, owner, d, stop, depth, ids, active):
         body = cd["body"]
         for x in walk(body):
             x["id"] += off
+            if x.get("inl_value") is not None:
+                x["inl_value"] += off
         # returns no longer leave the function
         rets = []
         for x in walk(body):
